@@ -230,6 +230,12 @@ class CLEngine(Engine):
                 return [["loadmd", []], ["run", 12], mk(pairs[:1]), ["run", 10], [draw(st.sampled_from(["refuse", "refusesync"])), node], ["drop", 0, 0], ["drop", 0, 0], ["drop", 0, 0], ["run", 6], mk(pairs[:1]),
                         ["run", draw(st.integers(0, 4))], ["wait", draw(st.integers(0, 2))]] + tail
             return [["loadmd", []], ["run", 12], mk(pairs), ["ev", "srv", 0], ["run", draw(st.integers(0, 2))]] + tail
+        if kind == "twoaddr":
+            # one broker cached under two addresses: topic A's metadata predates the broker's move, topic B's is loaded after it; then
+            # one call with partitions of both led by that broker (one request per broker!)
+            tj = (ti + 1) % len(self.tnames)
+            return [["leader", ti, 0, b], ["leader", tj, 0, b], ["loadmd", [ti]], ["run", 12], mk([(ti, 0)]), ["run", 10], ["down", b], ["up", b, True], ["leader", ti, 0, b], ["leader", tj, 0, b],
+                    ["loadmd", [tj]], ["run", 14], mk([(ti, 0), (tj, 0)] if tj != ti else [(ti, 0)]), ["run", 8], ["wait", 6], ["run", 14]]
         if kind == "timeout2":
             # two timeouts in a row on the same broker: after the first one the connection is replaced; the second silent connection
             # must be dropped just the same, and a younger unanswered request re-sent on yet another one
